@@ -1,6 +1,7 @@
 import Pyunicorn.Model.Proto
 import Pyunicorn.Model.Access
 import Pyunicorn.Model.WhileKernels
+import Pyunicorn.Model.LineIdx
 import Pyunicorn.Generated.StructC20Pyx
 import Pyunicorn.Generated.StructC20Py
 /-! Line-protocol driver of C20: access traces / verdicts of the raw-pointer
@@ -129,6 +130,16 @@ def answer (toks : List String) : String :=
       (if WhileKernels.tablesOK r.length n.toNat! (intMat sn) (ints ord) r then "valid|" else "any|") ++
       WhileKernels.showOutcome
         (WhileKernels.adaptive n.toNat! a.toNat! (intMat sn) (ints ord) r)
+  | ["linedist", name, nt, dim, r0, r1, m0, e0, e1, h0, rm, em, eps2, mm] =>
+      -- a wrapper of `_line_dist` on buffers of the given extents: IndexError or the histogram
+      match Pyunicorn.Generated.StructC20Py.line_dist_wrappers.find? (·.name == name) with
+      | none => "unknown-wrapper"
+      | some w =>
+        match Pyunicorn.LineIdx.outcome w nt.toInt! dim.toInt!
+            ⟨r0.toInt!, r1.toInt!, m0.toInt!, e0.toInt!, e1.toInt!, h0.toInt!⟩
+            (intMat rm) (intMat em) eps2.toInt! (ints mm) with
+        | none => "raise"
+        | some h => if h.isEmpty then "-" else join (h.map toString)
   | ["psites", key, b, kv] => predictKernel key b.toInt! (kvs kv)
   | _ => "bad-request"
 
